@@ -647,3 +647,223 @@ proof fn lemma_pwo_frame(c: Map<ZddRef, ZddRef>, n1: Seq<ZddNode>, n2: Seq<ZddNo
         }
     }
 }
+
+// ============================================================================================
+// Family product:  s in a (x) b  <=>  exists x in a, y in b with s = x ∪ y
+// ============================================================================================
+spec fn prod(nodes: Seq<ZddNode>, a: ZddRef, b: ZddRef, s: Set<u32>) -> bool {
+    exists|x: Set<u32>, y: Set<u32>| #![trigger mem(nodes, a, x), mem(nodes, b, y)] mem(nodes, a, x) && mem(nodes, b, y) && s =~= x.union(y)
+}
+
+proof fn lemma_prod_intro(nodes: Seq<ZddNode>, a: ZddRef, b: ZddRef, s: Set<u32>, x: Set<u32>, y: Set<u32>)
+    requires mem(nodes, a, x), mem(nodes, b, y), s =~= x.union(y),
+    ensures prod(nodes, a, b, s),
+{ }
+
+proof fn lemma_prod_sym(nodes: Seq<ZddNode>, a: ZddRef, b: ZddRef, s: Set<u32>)
+    ensures prod(nodes, a, b, s) == prod(nodes, b, a, s),
+{
+    if prod(nodes, a, b, s) {
+        let (x, y) = choose|x: Set<u32>, y: Set<u32>| #![trigger mem(nodes, a, x), mem(nodes, b, y)] mem(nodes, a, x) && mem(nodes, b, y) && s =~= x.union(y);
+        assert(s =~= y.union(x));
+        lemma_prod_intro(nodes, b, a, s, y, x);
+    }
+    if prod(nodes, b, a, s) {
+        let (y, x) = choose|y: Set<u32>, x: Set<u32>| #![trigger mem(nodes, b, y), mem(nodes, a, x)] mem(nodes, b, y) && mem(nodes, a, x) && s =~= y.union(x);
+        assert(s =~= x.union(y));
+        lemma_prod_intro(nodes, a, b, s, x, y);
+    }
+}
+
+proof fn lemma_prod_terminal(nodes: Seq<ZddNode>, a: ZddRef, b: ZddRef, s: Set<u32>)
+    ensures
+        a == ZddRef::Empty || b == ZddRef::Empty ==> !prod(nodes, a, b, s),
+        a == ZddRef::Base ==> prod(nodes, a, b, s) == mem(nodes, b, s),
+        b == ZddRef::Base ==> prod(nodes, a, b, s) == mem(nodes, a, s),
+{
+    let e = Set::<u32>::empty();
+    if a == ZddRef::Base {
+        if mem(nodes, b, s) { assert(s =~= e.union(s)); lemma_prod_intro(nodes, a, b, s, e, s); }
+        if prod(nodes, a, b, s) {
+            let (x, y) = choose|x: Set<u32>, y: Set<u32>| #![trigger mem(nodes, a, x), mem(nodes, b, y)] mem(nodes, a, x) && mem(nodes, b, y) && s =~= x.union(y);
+            assert(x =~= e); assert(x.union(y) =~= y); assert(s == y);
+        }
+    }
+    if b == ZddRef::Base {
+        if mem(nodes, a, s) { assert(s =~= s.union(e)); lemma_prod_intro(nodes, a, b, s, s, e); }
+        if prod(nodes, a, b, s) {
+            let (x, y) = choose|x: Set<u32>, y: Set<u32>| #![trigger mem(nodes, a, x), mem(nodes, b, y)] mem(nodes, a, x) && mem(nodes, b, y) && s =~= x.union(y);
+            assert(y =~= e); assert(x.union(y) =~= x); assert(s == x);
+        }
+    }
+}
+
+// a's top variable is strictly smaller than b's: split on whether the a-part contains it
+proof fn lemma_prod_lt(n0: Seq<ZddNode>, a: ZddRef, b: ZddRef, s: Set<u32>)
+    requires nodes_ok(n0), valid(a, n0.len() as int), valid(b, n0.len() as int), a is Node,
+        (n0[a->Node_0 as int].var as int) < top(n0, b),
+    ensures ({
+        let na = n0[a->Node_0 as int];
+        prod(n0, a, b, s) == (prod(n0, na.lo, b, s) || (s.contains(na.var) && prod(n0, na.hi, b, s.remove(na.var))))
+    })
+{
+    let na = n0[a->Node_0 as int]; let v = na.var;
+    assert(node_ok(n0, a->Node_0 as int));
+    if prod(n0, a, b, s) {
+        let (x, y) = choose|x: Set<u32>, y: Set<u32>| #![trigger mem(n0, a, x), mem(n0, b, y)] mem(n0, a, x) && mem(n0, b, y) && s =~= x.union(y);
+        if mem(n0, na.lo, x) {
+            lemma_prod_intro(n0, na.lo, b, s, x, y);
+        } else {
+            assert(x.contains(v) && mem(n0, na.hi, x.remove(v)));
+            if y.contains(v) { lemma_elems_ge_top(n0, b, y, v); }
+            assert(s.remove(v) =~= x.remove(v).union(y));
+            lemma_prod_intro(n0, na.hi, b, s.remove(v), x.remove(v), y);
+        }
+    }
+    if prod(n0, na.lo, b, s) {
+        let (x, y) = choose|x: Set<u32>, y: Set<u32>| #![trigger mem(n0, na.lo, x), mem(n0, b, y)] mem(n0, na.lo, x) && mem(n0, b, y) && s =~= x.union(y);
+        assert(mem(n0, a, x));
+        lemma_prod_intro(n0, a, b, s, x, y);
+    }
+    if s.contains(v) && prod(n0, na.hi, b, s.remove(v)) {
+        let t = s.remove(v);
+        let (x1, y) = choose|x1: Set<u32>, y: Set<u32>| #![trigger mem(n0, na.hi, x1), mem(n0, b, y)] mem(n0, na.hi, x1) && mem(n0, b, y) && t =~= x1.union(y);
+        if x1.contains(v) { lemma_elems_ge_top(n0, na.hi, x1, v); }
+        let x = x1.insert(v);
+        assert(x.remove(v) =~= x1);
+        assert(mem(n0, a, x));
+        assert(s =~= x.union(y));
+        lemma_prod_intro(n0, a, b, s, x, y);
+    }
+}
+
+// equal top variables
+proof fn lemma_prod_eq(n0: Seq<ZddNode>, a: ZddRef, b: ZddRef, s: Set<u32>)
+    requires nodes_ok(n0), valid(a, n0.len() as int), valid(b, n0.len() as int), a is Node, b is Node,
+        n0[a->Node_0 as int].var == n0[b->Node_0 as int].var,
+    ensures ({
+        let na = n0[a->Node_0 as int]; let nb = n0[b->Node_0 as int]; let v = na.var; let t = s.remove(v);
+        prod(n0, a, b, s) == (prod(n0, na.lo, nb.lo, s) || (s.contains(v) && (prod(n0, na.hi, nb.lo, t) || prod(n0, na.lo, nb.hi, t) || prod(n0, na.hi, nb.hi, t))))
+    })
+{
+    let na = n0[a->Node_0 as int]; let nb = n0[b->Node_0 as int]; let v = na.var; let t = s.remove(v);
+    assert(node_ok(n0, a->Node_0 as int)); assert(node_ok(n0, b->Node_0 as int));
+    if prod(n0, a, b, s) {
+        let (x, y) = choose|x: Set<u32>, y: Set<u32>| #![trigger mem(n0, a, x), mem(n0, b, y)] mem(n0, a, x) && mem(n0, b, y) && s =~= x.union(y);
+        let xlo = mem(n0, na.lo, x); let ylo = mem(n0, nb.lo, y);
+        if xlo && x.contains(v) { lemma_elems_ge_top(n0, na.lo, x, v); }
+        if ylo && y.contains(v) { lemma_elems_ge_top(n0, nb.lo, y, v); }
+        if xlo && ylo {
+            lemma_prod_intro(n0, na.lo, nb.lo, s, x, y);
+        } else if !xlo && ylo {
+            assert(t =~= x.remove(v).union(y));
+            lemma_prod_intro(n0, na.hi, nb.lo, t, x.remove(v), y);
+        } else if xlo && !ylo {
+            assert(t =~= x.union(y.remove(v)));
+            lemma_prod_intro(n0, na.lo, nb.hi, t, x, y.remove(v));
+        } else {
+            assert(t =~= x.remove(v).union(y.remove(v)));
+            lemma_prod_intro(n0, na.hi, nb.hi, t, x.remove(v), y.remove(v));
+        }
+    }
+    if prod(n0, na.lo, nb.lo, s) {
+        let (x, y) = choose|x: Set<u32>, y: Set<u32>| #![trigger mem(n0, na.lo, x), mem(n0, nb.lo, y)] mem(n0, na.lo, x) && mem(n0, nb.lo, y) && s =~= x.union(y);
+        assert(mem(n0, a, x)); assert(mem(n0, b, y));
+        lemma_prod_intro(n0, a, b, s, x, y);
+    }
+    if s.contains(v) && prod(n0, na.hi, nb.lo, t) {
+        let (x1, y) = choose|x1: Set<u32>, y: Set<u32>| #![trigger mem(n0, na.hi, x1), mem(n0, nb.lo, y)] mem(n0, na.hi, x1) && mem(n0, nb.lo, y) && t =~= x1.union(y);
+        if x1.contains(v) { lemma_elems_ge_top(n0, na.hi, x1, v); }
+        let x = x1.insert(v);
+        assert(x.remove(v) =~= x1); assert(mem(n0, a, x)); assert(mem(n0, b, y));
+        assert(s =~= x.union(y));
+        lemma_prod_intro(n0, a, b, s, x, y);
+    }
+    if s.contains(v) && prod(n0, na.lo, nb.hi, t) {
+        let (x, y1) = choose|x: Set<u32>, y1: Set<u32>| #![trigger mem(n0, na.lo, x), mem(n0, nb.hi, y1)] mem(n0, na.lo, x) && mem(n0, nb.hi, y1) && t =~= x.union(y1);
+        if y1.contains(v) { lemma_elems_ge_top(n0, nb.hi, y1, v); }
+        let y = y1.insert(v);
+        assert(y.remove(v) =~= y1); assert(mem(n0, a, x)); assert(mem(n0, b, y));
+        assert(s =~= x.union(y));
+        lemma_prod_intro(n0, a, b, s, x, y);
+    }
+    if s.contains(v) && prod(n0, na.hi, nb.hi, t) {
+        let (x1, y1) = choose|x1: Set<u32>, y1: Set<u32>| #![trigger mem(n0, na.hi, x1), mem(n0, nb.hi, y1)] mem(n0, na.hi, x1) && mem(n0, nb.hi, y1) && t =~= x1.union(y1);
+        if x1.contains(v) { lemma_elems_ge_top(n0, na.hi, x1, v); }
+        if y1.contains(v) { lemma_elems_ge_top(n0, nb.hi, y1, v); }
+        let x = x1.insert(v); let y = y1.insert(v);
+        assert(x.remove(v) =~= x1); assert(y.remove(v) =~= y1); assert(mem(n0, a, x)); assert(mem(n0, b, y));
+        assert(s =~= x.union(y));
+        lemma_prod_intro(n0, a, b, s, x, y);
+    }
+}
+
+// prod only depends on the denoted families, so it is stable under table growth
+proof fn lemma_prod_frame(n1: Seq<ZddNode>, n2: Seq<ZddNode>, a: ZddRef, b: ZddRef, s: Set<u32>)
+    requires frame(n1, n2), valid(a, n1.len() as int), valid(b, n1.len() as int),
+    ensures prod(n2, a, b, s) == prod(n1, a, b, s),
+{
+    if prod(n1, a, b, s) {
+        let (x, y) = choose|x: Set<u32>, y: Set<u32>| #![trigger mem(n1, a, x), mem(n1, b, y)] mem(n1, a, x) && mem(n1, b, y) && s =~= x.union(y);
+        assert(mem(n2, a, x) == mem(n1, a, x)); assert(mem(n2, b, y) == mem(n1, b, y));
+        lemma_prod_intro(n2, a, b, s, x, y);
+    }
+    if prod(n2, a, b, s) {
+        let (x, y) = choose|x: Set<u32>, y: Set<u32>| #![trigger mem(n2, a, x), mem(n2, b, y)] mem(n2, a, x) && mem(n2, b, y) && s =~= x.union(y);
+        assert(mem(n2, a, x) == mem(n1, a, x)); assert(mem(n2, b, y) == mem(n1, b, y));
+        lemma_prod_intro(n1, a, b, s, x, y);
+    }
+}
+
+spec fn pres_ok(nodes: Seq<ZddNode>, a: ZddRef, b: ZddRef, r: ZddRef) -> bool {
+    &&& valid(a, nodes.len() as int) && valid(b, nodes.len() as int) && valid(r, nodes.len() as int)
+    &&& top(nodes, r) >= imin(top(nodes, a), top(nodes, b))
+    &&& forall|s: Set<u32>| #[trigger] mem(nodes, r, s) == prod(nodes, a, b, s)
+}
+#[verifier::opaque]
+spec fn cache_ok_prod(c: Map<(ZddRef, ZddRef), ZddRef>, nodes: Seq<ZddNode>) -> bool {
+    forall|a: ZddRef, b: ZddRef| #[trigger] c.contains_key((a, b)) ==> pres_ok(nodes, a, b, c[(a, b)])
+}
+proof fn lemma_cp_empty(nodes: Seq<ZddNode>) ensures cache_ok_prod(Map::<(ZddRef, ZddRef), ZddRef>::empty(), nodes) { reveal(cache_ok_prod); }
+proof fn lemma_cp_get(c: Map<(ZddRef, ZddRef), ZddRef>, nodes: Seq<ZddNode>, a: ZddRef, b: ZddRef)
+    requires cache_ok_prod(c, nodes), c.contains_key((a, b)),
+    ensures pres_ok(nodes, a, b, c[(a, b)]),
+{ reveal(cache_ok_prod); }
+proof fn lemma_cp_insert(c: Map<(ZddRef, ZddRef), ZddRef>, nodes: Seq<ZddNode>, a: ZddRef, b: ZddRef, r: ZddRef)
+    requires cache_ok_prod(c, nodes), pres_ok(nodes, a, b, r),
+    ensures cache_ok_prod(c.insert((a, b), r), nodes),
+{ reveal(cache_ok_prod); }
+proof fn lemma_cp_frame(c: Map<(ZddRef, ZddRef), ZddRef>, n1: Seq<ZddNode>, n2: Seq<ZddNode>)
+    requires cache_ok_prod(c, n1), frame(n1, n2),
+    ensures cache_ok_prod(c, n2),
+{
+    reveal(cache_ok_prod);
+    assert forall|a: ZddRef, b: ZddRef| #[trigger] c.contains_key((a, b)) implies pres_ok(n2, a, b, c[(a, b)]) by {
+        let r = c[(a, b)];
+        assert(pres_ok(n1, a, b, r));
+        assert(top(n2, r) == top(n1, r)); assert(top(n2, a) == top(n1, a)); assert(top(n2, b) == top(n1, b));
+        assert forall|s: Set<u32>| #[trigger] mem(n2, r, s) == prod(n2, a, b, s) by {
+            assert(mem(n2, r, s) == mem(n1, r, s));
+            lemma_prod_frame(n1, n2, a, b, s);
+        }
+    }
+}
+
+// product of two families living in two DIFFERENT tables (the public Zdd::product contract)
+spec fn prod2(na: Seq<ZddNode>, ra: ZddRef, nb: Seq<ZddNode>, rb: ZddRef, s: Set<u32>) -> bool {
+    exists|x: Set<u32>, y: Set<u32>| #![trigger mem(na, ra, x), mem(nb, rb, y)] mem(na, ra, x) && mem(nb, rb, y) && s =~= x.union(y)
+}
+proof fn lemma_prod_bridge(na: Seq<ZddNode>, ra: ZddRef, nb: Seq<ZddNode>, rb: ZddRef, n: Seq<ZddNode>, rb2: ZddRef, s: Set<u32>)
+    requires forall|x: Set<u32>| #[trigger] mem(n, ra, x) == mem(na, ra, x), forall|y: Set<u32>| #[trigger] mem(n, rb2, y) == mem(nb, rb, y),
+    ensures prod(n, ra, rb2, s) == prod2(na, ra, nb, rb, s),
+{
+    if prod(n, ra, rb2, s) {
+        let (x, y) = choose|x: Set<u32>, y: Set<u32>| #![trigger mem(n, ra, x), mem(n, rb2, y)] mem(n, ra, x) && mem(n, rb2, y) && s =~= x.union(y);
+        assert(mem(na, ra, x) && mem(nb, rb, y));
+    }
+    if prod2(na, ra, nb, rb, s) {
+        let (x, y) = choose|x: Set<u32>, y: Set<u32>| #![trigger mem(na, ra, x), mem(nb, rb, y)] mem(na, ra, x) && mem(nb, rb, y) && s =~= x.union(y);
+        assert(mem(n, ra, x) && mem(n, rb2, y));
+        lemma_prod_intro(n, ra, rb2, s, x, y);
+    }
+}
